@@ -75,6 +75,11 @@ func (p *Parser) GetLastEvaluatedT() base.T {
 		t = base.MakeUnknown()
 	}
 
+	// a typed nil pointer stored by SetLastEvaluatedT
+	if t == nil {
+		return *base.MakeUntyped()
+	}
+
 	return *t.DeepCopy()
 }
 
